@@ -173,24 +173,28 @@ def specs(dip_deg, seed, q_true=None, sgn=1.0):
     F = ahrs.filters
     d = np.radians(dip_deg)
     out = {}
+
+    def sp(word, i=0):
+        # frames, representations and method names are compared case-insensitively by these entry points: each case spells them one of five ways
+        return gens.spell(word, int(seed) + i)
     for fr, mref in (("NED", mN(d)), ("ENU", mE(d))):
         t = F.TRIAD(v2=mref.copy(), frame=fr)
-        out["TRIAD/rotmat/" + fr] = (np.array(t.v1, float), np.array(t.v2, float), lambda a, m, fr=fr, mref=mref: F.TRIAD(v2=mref.copy(), frame=fr).estimate(a, m))
+        out["TRIAD/rotmat/" + fr] = (np.array(t.v1, float), np.array(t.v2, float), lambda a, m, fr=fr, mref=mref: F.TRIAD(v2=mref.copy(), frame=sp(fr)).estimate(a, m))
         out["TRIAD/quaternion/" + fr] = (np.array(t.v1, float), np.array(t.v2, float),
-                                         lambda a, m, fr=fr, mref=mref: F.TRIAD(v2=mref.copy(), frame=fr).estimate(a, m, "quaternion"))
+                                         lambda a, m, fr=fr, mref=mref: F.TRIAD(v2=mref.copy(), frame=sp(fr, 1)).estimate(a, m, sp("quaternion", 2)))
     dv = F.Davenport(magnetic_dip=dip_deg)
     out["Davenport"] = (np.array(dv.g_q, float), np.array(dv.m_q, float), lambda a, m: F.Davenport(magnetic_dip=dip_deg).estimate(a, m))
     qu = F.QUEST(magnetic_dip=dip_deg)
     out["QUEST"] = (np.array(qu.g_q, float), np.array(qu.m_q, float), lambda a, m: F.QUEST(magnetic_dip=dip_deg).estimate(a, m))
     fl = F.FLAE(magnetic_dip=dip_deg)
     for meth in ("eig", "symbolic", "newton"):
-        out["FLAE/" + meth] = (np.array(fl.ref[0], float), np.array(fl.ref[1], float), lambda a, m, meth=meth: F.FLAE(magnetic_dip=dip_deg).estimate(a, m, method=meth))
+        out["FLAE/" + meth] = (np.array(fl.ref[0], float), np.array(fl.ref[1], float), lambda a, m, meth=meth: F.FLAE(magnetic_dip=dip_deg).estimate(a, m, method=meth))      # FLAE validates the method name case-sensitively (a clear ValueError otherwise)
     for fr in ("NED", "ENU"):
         ol = F.OLEQ(magnetic_ref=dip_deg, frame=fr)
 
         def run_oleq(a, m, fr=fr):
             np.random.seed(seed)
-            return F.OLEQ(magnetic_ref=dip_deg, frame=fr).estimate(a, m)
+            return F.OLEQ(magnetic_ref=dip_deg, frame=sp(fr, 4)).estimate(a, m)
         out["OLEQ/" + fr] = (np.array(ol.a_ref, float), np.array(ol.m_ref, float), run_oleq)
 
         def run_oleq_fp(a, m, fr=fr):
@@ -216,11 +220,11 @@ def specs(dip_deg, seed, q_true=None, sgn=1.0):
     out["AQUA(acc,mag)"] = (G, mN(d), lambda a, m: F.AQUA(np.array([a, a]), np.array([m, m])).Q[1])
     for fr, mref in (("NED", mN(d)), ("ENU", mE(d))):
         for rep in ("rotmat", "quaternion") + (("rpy", "axisangle") if fr == "NED" else ()):
-            out["ecompass/%s/%s" % (fr, rep)] = (G, mref, lambda a, m, fr=fr, rep=rep: o.ecompass(a, m, frame=fr, representation=rep))
-    out["am2DCM/ENU"] = (G, mE(d), lambda a, m: o.am2DCM(a, m, frame="ENU"))
-    out["am2DCM/NED"] = (-G, mN(d), lambda a, m: o.am2DCM(a, m, frame="NED"))
-    out["am2q/ENU"] = (G, mE(d), lambda a, m: o.am2q(a, m, frame="ENU"))
-    out["am2q/NED"] = (-G, mN(d), lambda a, m: o.am2q(a, m, frame="NED"))
+            out["ecompass/%s/%s" % (fr, rep)] = (G, mref, lambda a, m, fr=fr, rep=rep: o.ecompass(a, m, frame=sp(fr, 5), representation=sp(rep, 6)))
+    out["am2DCM/ENU"] = (G, mE(d), lambda a, m: o.am2DCM(a, m, frame=sp("ENU", 7)))
+    out["am2DCM/NED"] = (-G, mN(d), lambda a, m: o.am2DCM(a, m, frame=sp("NED", 7)))
+    out["am2q/ENU"] = (G, mE(d), lambda a, m: o.am2q(a, m, frame=sp("ENU", 8)))
+    out["am2q/NED"] = (-G, mN(d), lambda a, m: o.am2q(a, m, frame=sp("NED", 8)))
     out["am2angles"] = (G, mN(d), lambda a, m: o.am2angles(a, m))
     for wl, wv in (("sum>1", np.array([1.0, 1.0])), ("sum>1,unequal", np.array([2.0, 0.7])), ("sum<1", np.array([0.3, 0.2])), ("normalised", np.array([0.8, 0.2]))):
         out["QUEST[weights %s]" % wl] = (np.array(qu.g_q, float), np.array(qu.m_q, float), lambda a, m, wv=wv: F.QUEST(magnetic_dip=dip_deg, weights=wv.copy()).estimate(a, m))
